@@ -175,6 +175,11 @@ def gen_case(rng, tier):
                         "target_floor_factor": rng.choice([None, None, 3.0, 10.0])})
         else:
             ops.append({"op": name})
+        if rng.random() < 0.25:
+            # the object the program held BEFORE the last deepcopy / pickle / reload is still alive
+            # and is used and modified in between (two live related machines, interleaved use)
+            ops[-1]["sib"] = {"attr": rng.choice(["variances", "weights", "floor", "means", "use"]),
+                              "k": rng.choice([0.3, 0.5, 2.0, 3.0])}
     return {
         "kind": rng.choice(["ml", "ml", "map"]),
         "c": c, "d": d,
@@ -294,6 +299,7 @@ def run_case(case, replay=None):
     tmp = tempfile.mkdtemp(prefix="verif-c17-")
     nontrivial = False
     held = []
+    siblings = []  # (machine, probe) pairs: objects a restart was taken FROM, still alive
     try:
         v = _check(m, probe, -1, "construct")
         if v is not None:
@@ -304,6 +310,7 @@ def run_case(case, replay=None):
             try:
                 with np.errstate(all="ignore"):
                     cc, dd = np.asarray(m.means).shape
+                    before_op = m
                     # (a floors array that happens to broadcast against the variances is not a
                     # wrong shape: it is accepted and legitimately reshapes the variances)
                     if o.get("reject") and name in _ATTR and not (
@@ -568,6 +575,26 @@ def run_case(case, replay=None):
                                         **rec.fields())
                             m = other
                             rec.faults["F5_restart_hdf5_load"] = rec.faults.get("F5_restart_hdf5_load", 0) + 1
+                    if m is not before_op and name in ("deepcopy", "pickle", "hdf5_from", "hdf5_load"):
+                        # (a shallow copy shares its arrays with the original by the caller's own
+                        # doing, so it is not kept)
+                        siblings.append((before_op, probe))
+                        del siblings[:-2]
+                    if o.get("sib") and siblings:
+                        s_, p_ = siblings[-1]
+                        a_, k_ = o["sib"]["attr"], o["sib"]["k"]
+                        if a_ == "variances":
+                            s_.variances = np.array(s_.variances, float) * k_
+                        elif a_ == "weights":
+                            s_.weights = np.array(s_.weights, float)[::-1].copy()
+                        elif a_ == "floor":
+                            s_.variance_thresholds = float(np.mean(np.asarray(s_.variances))) * k_
+                        elif a_ == "means":
+                            s_.means = np.array(s_.means, float) + k_ * np.sqrt(
+                                np.mean(np.asarray(s_.variances)))
+                        else:
+                            s_.acc_stats(p_)
+                        rec.probe("sibling_machine_modified_between_operations")
             except HarnessError:
                 raise
             except Exception as e:
@@ -580,6 +607,11 @@ def run_case(case, replay=None):
             if v is not None:
                 v.update(rec.fields())
                 return v
+            for s_, p_ in siblings:
+                v = _check(s_, p_, i, name + " (on the machine a copy was taken from)")
+                if v is not None:
+                    v.update(rec.fields())
+                    return v
         rec.note([np.asarray(m.weights), np.asarray(m.means), np.asarray(m.variances)])
         f = rec.fields()
         f["nontrivial"] = nontrivial
@@ -617,6 +649,8 @@ def shrink(case):
             if o["sched"]["mode"] != "shared" or o["sched"]["policy"] != "fifo":
                 o3 = dict(o, sched=dict(o["sched"], mode="shared", policy="fifo"))
                 yield dict(case, ops=ops[:i] + [o3] + ops[i + 1:])
+        if o.get("sib"):
+            yield dict(case, ops=ops[:i] + [{k: v for k, v in o.items() if k != "sib"}] + ops[i + 1:])
         if o["op"] in ("hdf5_from", "hdf5_load") and o["by"] != "path":
             yield dict(case, ops=ops[:i] + [dict(o, by="path")] + ops[i + 1:])
     if case["kind"] == "map":
